@@ -7,9 +7,9 @@ package dtls
 
 import (
 	"bytes"
-	"os"
 	"crypto/tls"
 	"fmt"
+	"os"
 	"strings"
 	"testing"
 	"testing/synctest"
